@@ -251,13 +251,15 @@ def static_search(ctx, facts, res):
         tl = sorted(toks.items(), key=lambda kv: (order.get(kv[0][1], 9), kv[0][2]))
         (tok0, cls0, line0), info0 = tl[0]
         fact = items.get((file, item), {})
-        nostd_only = all(i["theorems"] == ["C14_nostd"] for _, i in tl)
         key = "source:%s:%s" % (file, item)
-        what = ("%s:%d: item `%s` mentions `%s` (class %s) in code compiled in %d configuration(s) [%s%s]: %s" % (
+        why = {"alloc": "allocating vocabulary / the `alloc` crate",
+               "std": "a use of std outside the audited non-allocating set (is_*_feature_detected!, f32/f64::sqrt|abs)",
+               "std-audited": "a use of std (audited as non-allocating) that is compiled with the `std` feature OFF: the no_std build "
+                              "references something outside `core`",
+               "external": "a path into another crate", "unknown-macro": "a macro that is neither core's nor defined in the crate"}.get(cls0, cls0)
+        what = "%s:%d: item `%s` mentions `%s` (class %s) in code compiled in %d configuration(s) [%s%s]: %s" % (
             file, line0, item, tok0, cls0, len(info0["configurations"]), ", ".join(info0["configurations"][:4]),
-            ", ..." if len(info0["configurations"]) > 4 else "",
-            "with the `std` feature off the crate must reference nothing outside `core`" if nostd_only
-            else "allocating vocabulary / un-audited use of std or of another crate"))
+            ", ..." if len(info0["configurations"]) > 4 else "", why)
         ctx.violation(key, what, {
             "kind": "static", "file": file, "item": item, "item_kind": fact.get("kind"), "item_line": fact.get("line"),
             "item_cfg": fact.get("cfg_text"),
@@ -762,13 +764,15 @@ def run(ctx):
         b = builds[cfg]
         pred = preds.get(model_label(cfg))
         # a configuration that does not build
-        if b["lib"]["rc"] != 0 and re.search(r"--locked|lock file", b["lib"]["log"]) and b["nostdprobe"]["rc"] == 0 \
-                and b["nostdprobe"]["dep_rlib"]:
+        if b["lib"]["rc"] != 0 and re.search(r"--locked|lock file", b["lib"]["log"]):
             # lib.REPO/Cargo.lock is missing or stale and must not be rewritten: the same library, built from the same
-            # source with the same features as nostdprobe's dependency, is inspected instead
-            ctx.note("%s: `cargo build --locked` refused (Cargo.lock of %s missing/stale); inspecting %s instead" % (
-                cfg, lib.REPO, os.path.relpath(b["nostdprobe"]["dep_rlib"], lib.BUILD)))
-            b["lib"] = dict(b["lib"], rc=0, rlib=b["nostdprobe"]["dep_rlib"], cmd=b["nostdprobe"]["cmd"])
+            # source with the same features as nostdprobe's dependency, stands in for the direct build
+            if b["nostdprobe"]["rc"] == 0 and b["nostdprobe"]["dep_rlib"]:
+                ctx.note("%s: `cargo build --locked` refused (Cargo.lock of %s missing/stale); inspecting %s instead" % (
+                    cfg, lib.REPO, os.path.relpath(b["nostdprobe"]["dep_rlib"], lib.BUILD)))
+                b["lib"] = dict(b["lib"], rc=0, rlib=b["nostdprobe"]["dep_rlib"], cmd=b["nostdprobe"]["cmd"])
+            else:
+                b["lib"] = dict(b["lib"], log=b["nostdprobe"]["log"], cmd=b["nostdprobe"]["cmd"])
         failed = [k for k in ("lib", "nostdprobe") if b[k]["rc"] != 0]
         if failed:
             k = failed[0]
